@@ -375,6 +375,10 @@ class Case:
         with dmod._mutex:
             reserved = dmod._reserved_bytes.get(dest.name, 0)
             dmod._reserved_bytes[dest.name] = 0
+        # the pull task ends by measuring the destination's free space and recording it in the index
+        av_after = db.StorageNode.get(id=dest.id).avail_gb
+        if av_after != dest.avail_gb:
+            line += f"\nw.op measure {dest.id} {'-' if av_after is None else round(av_after * 2 ** 20)}"
         return line, dict(kind="pull", transfer=transfer, route=pathdir, mode=mode, completed=bool(row.completed),
                           cancelled=bool(row.cancelled), src=src_bytes, dst_before=dst_before, dst_after=dst_after,
                           leftovers=self.leftovers(dest), reserved_after=reserved, dest=dest.id, file=f.id, src_node=src.id, raised=raised)
@@ -505,13 +509,18 @@ def random_history(case, nsteps, weights):
             if sub is None:
                 continue
             for (l, dd) in sub:
-                lines.append(l); exp.append(None)
+                for l_ in l.split("\n"):
+                    lines.append(l_); exp.append(None)
                 lines.append("w.dump"); exp.append(None)
                 steps.append(dd)
             exp[-1] = case.real_dump()
             continue
         elif kind in ("decide", "search", "pull"):
             rows = list(db.ArchiveFileCopyRequest.select())
+            if kind == "pull":
+                # a pull task exists only for a request that was pending when it was dispatched; one that has been completed or
+                # cancelled since is still possible (stale task) but must at least have been dispatched: keep to pending ones
+                rows = [r for r in rows if not r.completed and not r.cancelled]
             if not rows:
                 continue
             rq = rng.choice(rows)
@@ -579,7 +588,8 @@ def random_history(case, nsteps, weights):
                 if now != data:
                     problems.append(("healthy-touched", f"step {d['kind']} changed the bytes of file {key[1]} on node {key[0]} "
                                      f"which the index recorded as healthy", d))
-        lines.append(line); exp.append(None)
+        for l_ in line.split("\n"):
+            lines.append(l_); exp.append(None)
         lines.append("w.dump"); exp.append(case.real_dump())
         steps.append(d)
     return dict(lines=lines, exp=exp, steps=steps, problems=problems)
